@@ -35,3 +35,9 @@ Definition f64_to_int (lo hi : Z) (x : f64) : Z :=
   end.
 Definition f64_to_i16 := f64_to_int (-32768) 32767.
 Definition f64_to_i32 := f64_to_int (-2147483648) 2147483647.
+
+(** the emitted cost of a weight: [((-w) * scale) as i16] *)
+Definition f64_cost (sc w : f64) : Z := f64_to_i16 (f64_mul (f64_neg w) sc).
+(** the scale of write_dictionary / write_bigram_details: 32767.0 / (largest absolute weight) *)
+Definition f64_absmax (ws : list f64) : f64 := fold_left f64_max (map f64_abs ws) (f64_of_Z 0).
+Definition f64_scale (ws : list f64) : f64 := f64_div (f64_of_Z 32767) (f64_absmax ws).
